@@ -173,40 +173,27 @@ def r03_2b(ck, F):
     ck.rule("R03.2b", "Cfg::check panics and ExchangedCfg::read returns Err unless chunk_size >= 4, "
             "receive_buffer >= 4 and the queue lengths are >= 1 (the facts R03.2 relies on)",
             "a peer announcing chunk_size 0..3 would make every port batch empty", floor=5)
-    # Cfg::check: each comparison of a cfg field against a constant guards a diverging call
+    # Cfg::check: the normal return is reached only under `self.<field> >= lo` (the other side diverges)
     b = F.body("chmux::cfg::Cfg::check")
-    found = {}
-    for s in [x for x in b.reachable if b.term(x)["t"] == "switch"]:
-        e = switch_expr(b, s)
-        if e[0] == "bin" and e[1] in ("Lt", "Le", "Ge", "Gt", "Eq", "Ne"):
-            ps = mir.paths_in(e)
-            k = const_value(e[3]) if const_value(e[3]) is not None else const_value(e[2])
-            for p in ps:
-                if p.startswith("self."):
-                    found[p[5:]] = (e[1], k, s)
+
+    def lower_bound(body, at, is_value):
+        """Largest k such that `value >= k` is among the conditions controlling block `at` (any spelling)."""
+        best = None
+        for e, m in conds(body, at):
+            if m is True and isinstance(e, tuple) and e[0] == "bin" and e[1] == "Ge" and is_value(e[2]):
+                k = const_value(e[3])
+                if k is not None and (best is None or k > best):
+                    best = k
+        return best
+    rets = b.returns()
     need = {"chunk_size": 4, "receive_buffer": 4}
     for fld, lo in need.items():
-        if fld not in found:
-            ck.bad(f"Cfg::check#{fld}", f"no comparison of self.{fld} against a constant found in Cfg::check", b.loc(0))
-            continue
-        op, k, s = found[fld]
-        # the failing side must diverge: one successor of the switch cannot reach Return
-        t = b.term(s)
-        succs = mir.Body.term_succ(t)
-        diverging = [x for x in succs if not (b.reach([x]) & set(b.returns()))]
-        eff = k if op in ("Lt", "Ge") else (k + 1 if op in ("Le", "Gt") else None)
-        ck.expect(bool(diverging) and eff is not None and eff >= lo, f"Cfg::check#{fld}",
-                  f"self.{fld} {op} {k} guards a diverging branch (enforces >= {eff})",
-                  f"Cfg::check does not enforce {fld} >= {lo} (found {op} {k}, diverging={bool(diverging)})", b.loc(s))
+        ks = [lower_bound(b, r, lambda x, f=fld: any(p == "self." + f for p in mir.paths_in(x))) for r in rets]
+        ok = bool(rets) and all(k is not None and k >= lo for k in ks)
+        ck.expect(ok, f"Cfg::check#{fld}", f"returns normally only under self.{fld} >= {min([k for k in ks if k is not None] or [0])}",
+                  f"Cfg::check does not enforce {fld} >= {lo} (bounds found on the returning paths: {ks})", b.loc(0))
     # ExchangedCfg::read: the value stored into each field of the returned aggregate is guarded by a comparison
     b = F.body("chmux::msg::ExchangedCfg::read")
-    cmps = []
-    for s in [x for x in b.reachable if b.term(x)["t"] == "switch"]:
-        e = switch_expr(b, s)
-        if e[0] == "bin" and e[1] in ("Lt", "Le", "Ge", "Gt"):
-            k = const_value(e[3])
-            if k is not None:
-                cmps.append(({c[3] for c in mir.calls_in(e[2])}, e[1], k, s))
     aggs = list(b.aggregates("chmux::msg::ExchangedCfg"))
     if not aggs:
         raise mir.AnchorMissing("ExchangedCfg aggregate in ExchangedCfg::read")
@@ -214,17 +201,9 @@ def r03_2b(ck, F):
     for fld, lo in {"chunk_size": 4, "port_receive_buffer": 4, "connect_queue": 1}.items():
         o = rv["ops"][rv["fields"].index(fld)]
         src = {c[3] for c in mir.calls_in(b.expr(o))}
-        hit = [(op, k, s) for cs, op, k, s in cmps if cs & src]
-        ok = False
-        for op, k, s in hit:
-            eff = k if op == "Ge" else (k + 1 if op == "Gt" else None)
-            t = b.term(s)
-            false_edge = [tb for v, tb in t["targets"] if v == "0"]
-            # the aggregate must not be reachable through the failing edge
-            if eff is not None and eff >= lo and false_edge and abb not in b.reach(false_edge, avoid=[s]):
-                ok = True
-        ck.expect(ok, f"ExchangedCfg::read#{fld}", f"{fld} reaches the returned value only if >= {lo}",
-                  f"ExchangedCfg::read does not enforce {fld} >= {lo} (comparisons on that value: {[(o_, k_) for o_, k_, _ in hit]})",
+        k = lower_bound(b, abb, lambda x: bool({c[3] for c in mir.calls_in(x)} & src))
+        ck.expect(k is not None and k >= lo, f"ExchangedCfg::read#{fld}", f"{fld} reaches the returned value only if >= {k}",
+                  f"ExchangedCfg::read does not enforce {fld} >= {lo} (lower bound established on the way to the returned value: {k})",
                   b.loc(abb, ai))
 
 
@@ -392,7 +371,7 @@ def r03_7(ck, F):
     parks = [bb for bb, i, s in sb.field_stores("return_fut")]
     ok = False
     for bb in parks:
-        ce = [(switch_expr(sb, s), switch_meaning(sb, s, v)) for s, tb, v in controlling_edges(sb, bb)]
+        ce = conds(sb, bb)
         ok = ok or any(e[0] == "discr" and mir.calls_in(e, MPSC_TRY_SEND) and m in ("Full", "Err") for e, m in ce)
     ck.expect(ok, "start_return#park-when-full", "a Full try_send parks the message in self.return_fut",
               "start_return drops the ReturnCredits message when the event queue is full", sb.loc(0))
